@@ -62,7 +62,7 @@ func main() {
 			for _, procs := range c.Procs {
 				hfirst := (pi+procs+int(crc32.ChecksumIEEE(line)%2))%2 == 0 // a function of the case text only (replayable)
 				rk := pbfrec.ReaderKindFor(line, *seed, pi, procs)
-				r := pbfrec.ScanFrom(pbfrec.NewReader(rk, data, *seed), procs, hfirst, nil, nil, 60*time.Second)
+				r := pbfrec.ScanFrom(pbfrec.NewReader(rk, data, *seed), procs, hfirst, nil, nil, 20*time.Second)
 				run := Run{Procs: procs, Profile: pi, Reader: rk, HFirst: hfirst, Elems: []interface{}{}}
 				if r.Hang {
 					run.Err, run.HErr = "hang", "hang"
